@@ -6,7 +6,9 @@ use ippref::WMsg;
 use vkit::gen::{self, G1Cfg};
 use vkit::rng::Rng;
 
-pub const HOSTILE: [&str; 6] = ["tails", "grid", "withlang", "tokens", "mutations", "bytes12"];
+pub const HOSTILE: [&str; 7] = ["tails", "grid", "withlang", "tokens", "mutations", "bytes12", "chains"];
+pub const CHAIN_LENS: [usize; 5] = [12, 256, 4096, 32764, 65535];
+pub const CHAIN_WORDS: usize = 10;
 
 pub struct Ctx {
     pub tier: String,
@@ -88,6 +90,8 @@ impl Ctx {
             }
             // every tag x every single-byte value, and every tag x every byte doubled / followed by a quote, dot, NUL
             "bytes12" => 256 * 256 * 5,
+            // every tag x periodic self-describing bodies (a decoder that interprets value bytes as further tags / lengths recurses or loops on these)
+            "chains" => 256 * CHAIN_LENS.len() as u64 * CHAIN_WORDS as u64,
             "mutations" => {
                 if self.thorough() {
                     2_000_000
@@ -168,6 +172,17 @@ impl Ctx {
                 v.push(0x03);
                 (v, format!("bytes12 tag={tag:#04x} body={body:02x?}"))
             }
+            "chains" => {
+                let (tag, body, w) = chains_params(idx);
+                let mut v = gen::HDR.to_vec();
+                v.push(0x04);
+                v.push(tag);
+                v.extend_from_slice(&[0, 1, b'c']);
+                v.extend_from_slice(&(body.len() as u16).to_be_bytes());
+                v.extend_from_slice(&body);
+                v.push(0x03);
+                (v, format!("chains tag={tag:#04x} len={} word={w}", body.len()))
+            }
             "tokens" => {
                 let mut i = idx;
                 let mut len = 0u32;
@@ -200,6 +215,28 @@ impl Ctx {
             _ => panic!("unknown family {fam}"),
         }
     }
+}
+
+/// (tag, body = one short word repeated up to the length, word index)
+pub fn chains_params(idx: u64) -> (u8, Vec<u8>, usize) {
+    let w = (idx % CHAIN_WORDS as u64) as usize;
+    let l = ((idx / CHAIN_WORDS as u64) % CHAIN_LENS.len() as u64) as usize;
+    let tag = (idx / CHAIN_WORDS as u64 / CHAIN_LENS.len() as u64) as u8;
+    let word: Vec<u8> = match w {
+        0 => vec![0, 0, 0, tag],
+        1 => vec![0, 0, 0, 0x7f],
+        2 => vec![tag],
+        3 => vec![0, tag],
+        4 => vec![0x7f, 0, 0, 0],
+        5 => vec![0, 0, 0, 0x34],
+        6 => vec![0, 1, tag],
+        7 => vec![tag, 0, 0],
+        8 => vec![tag, 0, 0, 0, 0],
+        _ => vec![0, 4, 0, 0, 0, tag],
+    };
+    let n = CHAIN_LENS[l];
+    let body: Vec<u8> = word.iter().copied().cycle().take(n).collect();
+    (tag, body, w)
 }
 
 /// (tag, 1- or 2-byte body)
